@@ -7,6 +7,7 @@ import (
 	"go/types"
 	"os"
 	"path/filepath"
+	"regexp"
 	"sort"
 	"strings"
 )
@@ -351,6 +352,18 @@ func (w *World) verifyFunc(key string) (f *FuncCtx, err error) {
 				Goal: "false", Expect: "sat", Clause: "a normal exit is reachable under the precondition"})
 		}
 	}
+	if c.Pure && len(f.impure) > 0 {
+		seen := map[string]bool{}
+		var rs []string
+		for _, r := range f.impure {
+			if !seen[r] {
+				seen[r] = true
+				rs = append(rs, r)
+			}
+		}
+		f.obls = append(f.obls, &Obligation{ID: f.key + "#isfunc", Func: f.key, Kind: "isfunc", Goal: "false", Expect: "unsat",
+			Clause: "declared isfunc (deterministic function of its arguments) but: " + strings.Join(rs, "; ")})
+	}
 	h := funcSourceHash(w, fi, c)
 	for _, o := range f.obls {
 		o.FuncHash = h
@@ -378,6 +391,7 @@ func (f *FuncCtx) runDeferred(st *State, recoverVal string) (rets []*State, pani
 	defer func() { f.recoverT = savedRec }()
 	site := st.site
 	cur := st
+	origRet := st.ret
 	nd := st.ndefer
 	if nd > len(f.deferred) {
 		nd = len(f.deferred)
@@ -405,7 +419,7 @@ func (f *FuncCtx) runDeferred(st *State, recoverVal string) (rets []*State, pani
 				cur.ret = append(cur.ret, cur.vars[rv])
 			}
 		} else {
-			cur.ret = st.ret
+			cur.ret = origRet
 		}
 		rets = append(rets, cur)
 	}
@@ -501,6 +515,10 @@ func symbolsIn(s string) map[string]bool {
 func (w *World) buildQuery(f *FuncCtx, o *Obligation) string {
 	var body strings.Builder
 	for _, p := range o.PC {
+		p = filterTagged(p, o.Props)
+		if p == "" {
+			continue
+		}
 		body.WriteString("(assert " + p + ")\n")
 	}
 	if o.Goal != "false" || o.Expect == "unsat" {
@@ -652,4 +670,28 @@ func (w *World) preludeFuns() []string {
 		}
 	}
 	return preludeFunCache
+}
+
+var reTagged = regexp.MustCompile(`#tags:([A-Za-z0-9,]+)# `)
+
+// filterTagged drops (replaces by true) facts tagged for other properties than the obligation's.
+func filterTagged(p string, props []string) string {
+	if !strings.Contains(p, "#tags:") {
+		return p
+	}
+	if strings.HasPrefix(p, "#tags:") {
+		m := reTagged.FindStringSubmatch(p)
+		rest := p[len(m[0]):]
+		if len(props) == 0 {
+			return rest
+		}
+		for _, t := range strings.Split(m[1], ",") {
+			if has(props, t) {
+				return rest
+			}
+		}
+		return ""
+	}
+	// tagged facts nested inside a merge disjunction: keep them all (strip markers)
+	return reTagged.ReplaceAllString(p, "")
 }
